@@ -298,6 +298,18 @@ def concLine (f : List String) : String :=
     s!"{id} {String.intercalate "~" shown} spec=ok ispec={isp} dom=1 nt={nt} merges={ms.length}"
   | _ => "!badline"
 
+/-- the reassembler callback handed groups from several Go routines at once: rendering is a function of
+(login, event) (C14.render), so every delivery renders as it does sequentially.
+`<id> <goroutines> <deliveries> <variant> [obs=…]` -/
+def cbLine (f : List String) : String :=
+  match f with
+  | id :: _ :: _ :: _ :: rest =>
+    let isp := match kv rest "obs" with
+      | none => "-"
+      | some o => if o == "same-as-sequential" then "ok" else "FAIL:concurrent-deliveries-render-differently"
+    s!"{id} same-as-sequential spec=ok ispec={isp} dom=1 nt=1"
+  | _ => "!badline"
+
 /-- C15: `<id> <failat:-|k> <op;op;…> [obs=…]` -/
 def apLine (f : List String) : String :=
   match f with
@@ -614,6 +626,7 @@ def main (args : List String) : IO UInt32 := do
   | ["c07fifo"] => loop stdin stdout c07fifoLine; return 0
   | ["c07"] => loop stdin stdout c07Line; return 0
   | ["conc"] => loop stdin stdout concLine; return 0
+  | ["cbconc"] => loop stdin stdout cbLine; return 0
   | ["health"] => loop stdin stdout healthLine; return 0
   | ["dir"] => loop stdin stdout dirLine; return 0
   | ["pipe"] => loop stdin stdout pipeLine; return 0
